@@ -55,8 +55,9 @@ theorem safe_readN {B n : Nat} {s : Bytes} {k : Bytes → Bytes → Res}
   · exact safe_err _ _
   · apply hk; simp only [List.length_take]; omega
 
-theorem safe_readLen {B limit : Nat} {s : Bytes} {k : Nat → Bytes → Res} (hB : 4 ≤ B)
-    (hk : ∀ n rest, 0 < n → n ≤ limit → Safe B (k n rest)) : Safe B (readLen limit s k) := by
+theorem safe_readLen {B envelope : Nat} {s : Bytes} {k : Nat → Bytes → Res} (hB : 4 ≤ B)
+    (hk : ∀ n rest, 0 < n → n ≤ 16777216 + envelope → Safe B (k n rest)) :
+    Safe B (readLen Cfg.spec envelope s k) := by
   unfold readLen
   apply safe_alloc hB
   apply safe_readN
@@ -65,14 +66,42 @@ theorem safe_readLen {B limit : Nat} {s : Bytes} {k : Nat → Bytes → Res} (hB
   split
   · exact safe_err _ _
   · rename_i h
+    have h' : ¬ (fromLE x = 0 ∨ fromLE x > 16777216 + envelope) := by simpa [Cfg.spec] using h
     apply hk <;> omega
 
-theorem safe_checkProto {B : Nat} {r : Res} (h : Safe B r) : Safe B (checkProto r) := by
+theorem safe_checkProto {B : Nat} {cfg : Cfg} {r : Res} (h : Safe B r) : Safe B (checkProto cfg r) := by
   unfold checkProto
   split
   · split
     · exact ⟨rfl, h.2⟩
     · exact h
   · exact h
+
+/-! ### `Cfg.spec` evaluated (all by `rfl`) -/
+
+theorem spec_lenRejects (n e : Nat) : Cfg.spec.lenRejects n e = decide (n = 0 ∨ n > 16777216 + e) := rfl
+theorem spec_outRejects (l : Nat) : Cfg.spec.outRejects l = decide (l > 16777216 ∨ l = 0) := rfl
+theorem spec_misaligned (l : Nat) : Cfg.spec.misaligned l = decide (l % 4 ≠ 0) := rfl
+theorem spec_isCode (l : Nat) : Cfg.spec.isCode l = decide (l = 4) := rfl
+theorem spec_abrWords (l : Nat) : Cfg.spec.abrWords l = l / 4 := rfl
+theorem spec_abrShort (w : Nat) : Cfg.spec.abrShort w = decide (w < 127) := rfl
+theorem spec_abrMark : Cfg.spec.abrMark = 127 := rfl
+theorem spec_abrLong (b : Nat) : Cfg.spec.abrLong b = decide (b ≥ 127) := rfl
+theorem spec_abrRejects (n : Nat) : Cfg.spec.abrRejects n = decide (n * 4 > 16777216) := rfl
+theorem spec_abrBytes (n : Nat) : Cfg.spec.abrBytes n = (n : Int) * 4 := rfl
+theorem spec_fullRejects (n : Nat) : Cfg.spec.fullRejects n = decide (n < 12) := rfl
+theorem spec_fullEnvelope : Cfg.spec.fullEnvelope = 12 := rfl
+theorem spec_fullExpand (n : Nat) : Cfg.spec.fullExpand n = (n : Int) - 4 := rfl
+theorem spec_fullInnerLo (n : Nat) : Cfg.spec.fullInnerLo n = 4 := rfl
+theorem spec_fullInnerHi (n : Nat) : Cfg.spec.fullInnerHi n = n := rfl
+theorem spec_fullPayload (n : Nat) : Cfg.spec.fullPayload n = (n : Int) - 12 := rfl
+theorem spec_fullCrcLo (n : Nat) : Cfg.spec.fullCrcLo n = 0 := rfl
+theorem spec_fullCrcHi (n : Nat) : Cfg.spec.fullCrcHi n = (n : Int) - 4 := rfl
+theorem spec_fullCopyLo (n : Nat) : Cfg.spec.fullCopyLo n = 8 := rfl
+theorem spec_fullCopyHi (n : Nat) : Cfg.spec.fullCopyHi n = (n : Int) - 4 := rfl
+theorem spec_fullWire (l : Nat) : Cfg.spec.fullWire l = l + 12 := rfl
+theorem spec_padEnvelope : Cfg.spec.padEnvelope = 3 := rfl
+theorem spec_padOf (b : Nat) : Cfg.spec.padOf b = b % 4 := rfl
+theorem spec_padStrip (n : Nat) : Cfg.spec.padStrip n = n % 4 := rfl
 
 end TdModel.Codec
